@@ -199,6 +199,32 @@ def fill_part(prop, tier, seed):
     return fillpart.run(prop, tier, seed)
 
 
+def proxy_part(prop, tier, seed):
+    from . import fillpart
+    return fillpart.table(prop, tier, seed, "Proxy.tla", "ProxyQuick.cfg", "Proxy.cfg", "TestProxyCases", "PROXY",
+                          "every script of <= MaxCalls results (n in {0,1,3}, err in {none, EOF, custom}) x direction x Close x fast path x "
+                          "moving-average decorator (bare and under two wrappers) x total known/unknown enumerated by TLC from Proxy.tla and "
+                          "executed on the real ProxyReader/ProxyWriter; each case is a distinct configuration",
+                          "proxy-disagrees-with-Proxy.tla",
+                          ["byte content is checked through position-coded bytes; sample durations are only checked for plausibility (0..5s)"], variants=1)
+
+
+PARTS["C19"] = [proxy_part]
+
+
+def decor_part(prop, tier, seed):
+    from . import fillpart
+    return fillpart.table(prop, tier, seed, "MCDecor.tla", "DecorQuick.cfg", "Decor.cfg", "TestDecorCases", "DECOR",
+                          "cases enumerated by TLC from Decor.tla: every sample sequence (n in {-1,0,1,3}, dur in {0,1,5}) of length <= MaxSamples "
+                          "delivered through wrappers 0/1/3 deep; byte counts m*B^e+d at every unit boundary for both bases; durations h/m/s(+ms) below "
+                          "60 h in four styles for elapsed and ETA; (current,total) percentages incl. the int64 scale; each case is distinct",
+                          "decorator-disagrees-with-Decor.tla",
+                          ["the digits printed for verbs e/g are only checked to read back within a relative tolerance",
+                           "elapsed / ETA / average speed run on the fake clock of a synctest bubble",
+                           "TLC integers are 32-bit: byte counts are symbolic (B, e, m, d) in the specification and exact big integers in the driver"])
+
+
+PARTS["C20"] = [decor_part]
 PARTS["C07"] = [fill_part]
 PARTS["C08"] = [fill_part]
 LEVEL = {"C15": "fault_enumeration"}
